@@ -51,6 +51,7 @@ func check(args []string) int {
 	evdir := fs.String("evidence", "/verif/evidence", "evidence directory")
 	knownPath := fs.String("known", "/verif/known_findings.json", "known findings file")
 	verbose := fs.Bool("v", false, "print every obligation")
+	seedPatch := fs.String("seedpatch", "", "decide the property on the current tree with this unified diff applied in memory (sensitivity runs; never used by a registered command)")
 	fs.Parse(args)
 	t0 := time.Now()
 	p := props.Get(*pid)
@@ -68,17 +69,25 @@ func check(args []string) int {
 		return 1
 	}
 	var w *core.World
+	var overlay map[string][]byte
+	if *seedPatch != "" {
+		overlay, err = core.OverlayFromPatch(core.RepoDir, *seedPatch)
+		if err != nil {
+			fmt.Printf("SEED-NOT-APPLICABLE property=%s %v\n", *pid, err)
+			return 3
+		}
+	}
 	if *tier == "thorough" {
-		w, err = core.Load(true, nil, "./...")
+		w, err = core.Load(true, overlay, "./...")
 	} else {
-		w, err = core.Load(false, nil, p.Packages...)
+		w, err = core.Load(false, overlay, p.Packages...)
 	}
 	if err != nil {
 		fmt.Printf("VIOLATION property=%s replay=- (load failed: %v)\n", *pid, err)
 		return 1
 	}
 	res := core.CheckProperty(w, p, *tier, known)
-	if *tier == "thorough" {
+	if *tier == "thorough" && *seedPatch == "" {
 		res.Sens = props.Sensitivity(p, seed)
 	}
 	if err := res.WriteEvidence(*evdir, seed, time.Since(t0).Seconds()); err != nil {
